@@ -106,6 +106,7 @@ func (self *Lexer) skipBlockComment() {
 }
 
 func (self *Lexer) NextToken() (Token, *errors.Error) {
+	verifLex(self)
 outer:
 	for self.currentChar != nil {
 		switch *self.currentChar {
